@@ -348,6 +348,10 @@ def main():
     apply_documented_deviations(schemes)
     for k, s in schemes.items():
         s['paths'] = f2ts.count_paths(s)
+        if s['paths'] < 0:
+            s['cyclic'] = True
+            s['paths'] = 0
+            problems.append('%s: the extracted graph has a cycle' % k)
     json.dump({'schemes': schemes, 'problems': problems}, open(need[0], 'w'))
     json.dump({'table': table, 'low': low, 'chains': chains}, open(need[1], 'w'), indent=1)
     # ---- TLA+ data
